@@ -2,6 +2,7 @@ package main
 
 import (
 	"fmt"
+	"go/constant"
 	"go/token"
 	"go/types"
 	"strings"
@@ -442,7 +443,7 @@ func ruleC07Alias(c *Ctx) {
 		}
 	})
 	// the wrapped object of row i is stored at position i
-	okPos := false
+	okPos, nStores := true, 0
 	allInstrs(f, func(_ *ssa.BasicBlock, in ssa.Instruction) {
 		st, ok := in.(*ssa.Store)
 		if !ok {
@@ -455,16 +456,28 @@ func ruleC07Alias(c *Ctx) {
 		if _, isMS := ia.X.(*ssa.MakeSlice); !isMS {
 			return
 		}
+		// every store into the result is at the loop's own position
+		nStores++
+		atLoopIndex := false
 		for _, l := range rangeLoops(f) {
 			if bo, isB := ia.Index.(*ssa.BinOp); isB && l.over == ssa.Value(f.Params[0]) {
 				if _, isPhi := bo.X.(*ssa.Phi); isPhi && bo.Op.String() == "+" {
 					if k, isC := constIntOf(bo.Y); isC && k == 1 && bo.Block() == l.header {
-						okPos = true
+						atLoopIndex = true
 					}
 				}
 			}
+			if ph, isPhi := ia.Index.(*ssa.Phi); isPhi && ph.Block() == l.header && l.over == ssa.Value(f.Params[0]) {
+				atLoopIndex = true // index-loop form
+			}
+		}
+		if !atLoopIndex {
+			okPos = false
 		}
 	})
+	if nStores == 0 {
+		okPos = false
+	}
 	if !okPos {
 		why = append(why, "the wrapped object of row i is not stored at position i (order not preserved)")
 	}
@@ -1387,4 +1400,164 @@ func ruleC17BracketEscapeScope(c *Ctx) {
 		}
 		return "no escape skip found in the backslash arm"
 	}())
+}
+
+func init() { register("C17", ruleC17QuoteCloseMatches) }
+
+// ruleC17QuoteCloseMatches: an open quote is closed only by the same quote character.
+func ruleC17QuoteCloseMatches(c *Ctx) {
+	c.Doc("c17.quote-close-matches", "bracket locator (FindArrayIndex): inside the scan loop the open-quote state returns to its neutral value (nil / 0) only on a path that compared the state with the current quote character and found them equal — a `'` inside a \"...\" string (or a `\"` inside '...') does not close it; a locator that toggles on any quote character mistakes the rest of the string for SQL and rewrites its brackets")
+	f := c.P.Func(modPath, "FindArrayIndex")
+	if f == nil {
+		c.Unknown("c17.quote-close-matches", "FindArrayIndex", "-", "anchor lost")
+		return
+	}
+	hs := loopHeaders(f)
+	inLoop := func(b *ssa.BasicBlock) bool {
+		for _, h := range hs {
+			if b == h || inNaturalLoop(h, b) {
+				return true
+			}
+		}
+		return false
+	}
+	isNeutral := func(v ssa.Value) bool {
+		if cst, ok := v.(*ssa.Const); ok {
+			if cst.IsNil() {
+				return true
+			}
+			if k, isK := constIntOf(cst); isK && k == 0 {
+				return true
+			}
+		}
+		return false
+	}
+	// state phis: loop-carried phis of pointer or small integer/bool type that receive the neutral value
+	stateDerived := func(v ssa.Value, state map[*ssa.Phi]bool) bool {
+		for d := 0; d < 4 && v != nil; d++ {
+			switch x := v.(type) {
+			case *ssa.Phi:
+				if state[x] {
+					return true
+				}
+				return false
+			case *ssa.UnOp:
+				v = x.X
+			case *ssa.Convert:
+				v = x.X
+			default:
+				return false
+			}
+		}
+		return false
+	}
+	state := map[*ssa.Phi]bool{}
+	neutralPhis, otherPhis := map[*ssa.Phi]bool{}, map[*ssa.Phi]bool{}
+	var cands []*ssa.Phi
+	for _, b := range f.Blocks {
+		for _, in := range b.Instrs {
+			ph, ok := in.(*ssa.Phi)
+			if !ok || !loopCarried(f, ph) {
+				continue
+			}
+			ts := ph.Type().String()
+			if !(strings.HasPrefix(ts, "*") || ts == "uint8" || ts == "byte" || ts == "rune" || ts == "int32" || ts == "bool") {
+				continue
+			}
+			hasNeutral, hasOther := false, false
+			for _, e := range ph.Edges {
+				if isNeutral(e) || (ts == "bool" && func() bool { cst, ok := e.(*ssa.Const); return ok && cst.Value != nil && !constant.BoolVal(cst.Value) }()) {
+					hasNeutral = true
+				} else if _, isPhi := e.(*ssa.Phi); !isPhi {
+					hasOther = true
+				}
+			}
+			if hasNeutral {
+				neutralPhis[ph] = true
+			}
+			if hasOther {
+				otherPhis[ph] = true
+			}
+			cands = append(cands, ph)
+		}
+	}
+	// the variable is a family of phis connected through their edges (header phi, merge phis after the switch)
+	for _, seed := range cands {
+		fam := map[*ssa.Phi]bool{}
+		var grow func(p *ssa.Phi)
+		grow = func(p *ssa.Phi) {
+			if fam[p] {
+				return
+			}
+			fam[p] = true
+			for _, e := range p.Edges {
+				if q, ok := e.(*ssa.Phi); ok {
+					grow(q)
+				}
+			}
+			for _, q := range cands {
+				for _, e := range q.Edges {
+					if e == ssa.Value(p) {
+						grow(q)
+					}
+				}
+			}
+		}
+		grow(seed)
+		hasN, hasO := false, false
+		for q := range fam {
+			hasN = hasN || neutralPhis[q]
+			hasO = hasO || otherPhis[q]
+		}
+		if hasN && hasO {
+			for q := range fam {
+				state[q] = true
+			}
+		}
+	}
+	if len(state) == 0 {
+		c.Unknown("c17.quote-close-matches", "FindArrayIndex", c.P.Pos(f.Pos()), "anchor lost: no open-quote state variable")
+		return
+	}
+	n := 0
+	var why []string
+	for ph := range state {
+		for i, e := range ph.Edges {
+			pred := ph.Block().Preds[i]
+			neutral := isNeutral(e)
+			if cst, ok := e.(*ssa.Const); ok && ph.Type().String() == "bool" && cst.Value != nil && !constant.BoolVal(cst.Value) {
+				neutral = true
+			}
+			if !neutral || !inLoop(pred) {
+				continue
+			}
+			// a reset inside the loop (not the initial value)
+			if !ph.Block().Dominates(pred) && !inLoop(ph.Block()) {
+				continue
+			}
+			isInit := true
+			for _, h := range hs {
+				if h.Dominates(pred) {
+					isInit = false
+				}
+			}
+			if isInit {
+				continue
+			}
+			n++
+			matched := false
+			for _, fc := range relFacts(factsOnEdge(pred, ph.Block())) {
+				if fc.r == relEQ && (stateDerived(fc.x, state) || stateDerived(fc.y, state)) && !isNeutral(fc.x) && !isNeutral(fc.y) {
+					matched = true
+				}
+			}
+			if !matched {
+				why = append(why, "the open-quote state is reset at "+c.P.Pos(pred.Instrs[len(pred.Instrs)-1].Pos())+" without comparing it with the current quote character: any quote closes the open region")
+			}
+		}
+	}
+	if n == 0 {
+		why = append(why, "the open-quote state is never reset inside the loop")
+	}
+	c.Check(len(why) == 0, "c17.quote-close-matches", "FindArrayIndex", c.P.Pos(f.Pos()), fmt.Sprintf("%d resets of the open-quote state, each after an equality test with the current quote", n), strings.Join(uniq(why), "; "))
 }
